@@ -206,7 +206,7 @@ fn max_diff(a: &[Coor4D], b: &[Coor4D]) -> f64 {
     m
 }
 
-//@n {"id":"C13.N.conventions","props":["C13"],"tier":"quick","bound":"merc, webmerc, tmerc, btmerc, lcc, laea, somerc, omerc on a 16x16 lattice of their domain: x_0/y_0 (2 values), lon_0 (2 values), k_0 (0.9996), ellipsoid scaling (a x 2); utm zones 1, 17, 32, 60 north and south vs tmerc, butm zone 32 vs btmerc; merc on a sphere vs webmerc (also at 80 < |lat| <= 89.5); merc lat_ts vs k_0; lcc 1SP vs 2SP with equal parallels","text":"x_0 and y_0 are added to the forward result; lon_0 (degrees) is equivalent to subtracting it from the input longitude; k_0 scales the unshifted plane coordinates linearly; scaling the semi-major axis scales the unshifted result; utm zone=Z == tmerc lon_0=6Z-183 k_0=0.9996 x_0=500000 y_0=0|10000000; butm likewise; merc on a sphere == webmerc on the same sphere; lat_ts == the corresponding k_0; 1SP lcc == 2SP lcc with both parallels equal (tolerance 1e-6 m, relative 1e-12 for scalings)"}
+//@n {"id":"C13.N.conventions","props":["C13"],"tier":"quick","bound":"merc, webmerc, tmerc, btmerc, lcc, laea, somerc, omerc on a 16x16 lattice of their domain: x_0/y_0 (2 values), lon_0 (2 values), k_0 (0.9996), ellipsoid scaling (a x 2); utm zones 1, 17, 32, 60 north and south vs tmerc, butm zones 1, 17, 32, 60 north and south vs btmerc; lcc northern and southern cones up to and including the pole at the apex; merc on a sphere vs webmerc (also at 80 < |lat| <= 89.5); merc lat_ts vs k_0; lcc 1SP vs 2SP with equal parallels","text":"x_0 and y_0 are added to the forward result; lon_0 (degrees) is equivalent to subtracting it from the input longitude; k_0 scales the unshifted plane coordinates linearly; scaling the semi-major axis scales the unshifted result; utm zone=Z == tmerc lon_0=6Z-183 k_0=0.9996 x_0=500000 y_0=0|10000000; butm likewise; merc on a sphere == webmerc on the same sphere; lat_ts == the corresponding k_0; 1SP lcc == 2SP lcc with both parallels equal (tolerance 1e-6 m, relative 1e-12 for scalings)"}
 #[test]
 fn verif_native_c13_conventions() {
     let mut ctx = Minimal::default();
@@ -215,15 +215,16 @@ fn verif_native_c13_conventions() {
     let mut n = 0;
     let dom = |lon: (f64, f64), lat: (f64, f64)| lattice(&Case { def: "", lon, lat, heights: &[0.0], tol_m: 0.0, angular_out: false }, 16);
     // (base definition, domain)
-    let projs: [(&str, Vec<Coor4D>); 8] = [
+    let projs: [(&str, Vec<Coor4D>); 9] = [
         ("merc", dom((-150.0, 150.0), (-80.0, 80.0))),
         ("webmerc", dom((-150.0, 150.0), (-80.0, 80.0))),
         ("tmerc", dom((-20.0, 20.0), (-80.0, 80.0))),
         ("btmerc", dom((-3.0, 3.0), (-80.0, 80.0))),
-        ("lcc lat_1=33 lat_2=45", dom((-100.0, 100.0), (-40.0, 85.0))),
+        ("lcc lat_1=33 lat_2=45", dom((-100.0, 100.0), (-40.0, 90.0))),
         ("laea lat_0=52", dom((-80.0, 80.0), (-20.0, 85.0))),
         ("somerc lat_0=46.95", dom((-20.0, 20.0), (25.0, 70.0))),
         ("omerc latc=4 alpha=53:18:56.9537 gamma_c=53:07:48.3685", dom((-6.0, 6.0), (-3.0, 12.0))),
+        ("lcc lat_1=-33 lat_2=-45 lat_0=-35", dom((-100.0, 100.0), (-90.0, 40.0))),
     ];
     let mut check = |id: String, ok: bool, msg: String, fails: &mut Vec<String>, ids: &mut Vec<String>, n: &mut usize| {
         *n += 1;
@@ -315,16 +316,17 @@ fn verif_native_c13_conventions() {
             }
         }
     }
-    {
-        let pts = dom((6.0, 12.0), (-80.0, 84.0));
+    for zone in [1i32, 17, 32, 60] {
+        let lon0 = 6 * zone - 183;
+        let pts = dom((lon0 as f64 - 3.0, lon0 as f64 + 3.0), (-80.0, 84.0));
         for south in [false, true] {
-            let (a, b) = (format!("butm zone=32{}", if south { " south" } else { "" }), format!("btmerc lon_0=9 k_0=0.9996 x_0=500000 y_0={}", if south { 10000000 } else { 0 }));
+            let (a, b) = (format!("butm zone={zone}{}", if south { " south" } else { "" }), format!("btmerc lon_0={lon0} k_0=0.9996 x_0=500000 y_0={}", if south { 10000000 } else { 0 }));
             match (fwd_all(&mut ctx, &a, &pts), fwd_all(&mut ctx, &b, &pts)) {
                 (Ok(x), Ok(y)) => {
                     let d = max_diff(&x, &y);
-                    check(format!("butm{}", if south { "s" } else { "n" }), d <= 1e-9, format!("`{a}` != `{b}` (max deviation {d:.3e} m)"), &mut fails, &mut ids, &mut n);
+                    check(format!("butm{zone}{}", if south { "s" } else { "n" }), d <= 1e-9, format!("`{a}` != `{b}` (max deviation {d:.3e} m)"), &mut fails, &mut ids, &mut n);
                 }
-                (Err(e), _) | (_, Err(e)) => check("butm".to_string(), false, e, &mut fails, &mut ids, &mut n),
+                (Err(e), _) | (_, Err(e)) => check(format!("butm{zone}"), false, e, &mut fails, &mut ids, &mut n),
             }
         }
     }
